@@ -1,5 +1,8 @@
-SPECIFICATION Spec
+SPECIFICATION GSpec
 CONSTANTS MaxFeat = 2
  MaxMut = 2
+ Slice = 7
+ HeavySlice = 7
+ Seed = 1
 INVARIANT Emit
 CHECK_DEADLOCK FALSE
